@@ -24,8 +24,8 @@ ASSUMPTIONS = [
     "monotonicity law evaluated on trees without negated rows (a negated row is meant to be dropped under cant_delete)",
     "juniper 'inactive:' rows are not generated",
 ]
-FLOORS = {"quick": {"filters_compared": 3000, "strict_raises_agreed": 300, "strict_passes_agreed": 100, "monotone_checked": 1000, "idempotent_checked": 3000},
-          "thorough": {"filters_compared": 100000, "strict_raises_agreed": 10000, "strict_passes_agreed": 3000, "monotone_checked": 30000, "idempotent_checked": 100000}}
+FLOORS = {"quick": {"filters_compared": 3000, "strict_raises_agreed": 300, "strict_passes_agreed": 100, "monotone_checked": 1000, "idempotent_checked": 3000, "explicit_negated_rule_cases": 400},
+          "thorough": {"filters_compared": 100000, "strict_raises_agreed": 10000, "strict_passes_agreed": 3000, "monotone_checked": 30000, "idempotent_checked": 100000, "explicit_negated_rule_cases": 12000}}
 VENDORS = ["huawei", "cisco", "pc", "routeros", "juniper", "arista"]
 KNOWN_WINNER = "C06/children-rules-lost-when-global-or-negated-match-outranks-local"
 KNOWN_GLOBAL_MERGE = "C06/children-rules-lost-when-same-row-is-global-in-another-acl"
@@ -80,7 +80,26 @@ def contains(sup, sub):
     return all(r in m and contains(m[r], c) for r, c in sub)
 
 
-def make_case(seed):
+def add_negpairs(rng, level, prefix, count):
+    """beside a rule P marked not deletable, list the explicit negated form `<negation word> P` as a rule of its own (what an
+    ACL does to say: the negated line is mine, but do not remove the positive one): a negated row then matches P in reverse and
+    the explicit rule directly, with the same specificity"""
+    for r in list(level):
+        if r.children and not r.glob:
+            add_negpairs(rng, r.children, prefix, count)
+        if r.glob or r.pat.split()[0] in ("~", prefix) or r.pat == "~" or rng.random() > 0.35:
+            continue
+        r.explicit_cd = [True]
+        r.cant_delete = [True]
+        neg = A.AclRule(prefix + " " + r.pat)
+        if r.children and rng.random() < 0.5:
+            neg.children = [A.AclRule("~")]
+        pos = level.index(r)
+        level.insert(pos + 1 if rng.random() < 0.7 else pos, neg)
+        count[0] += 1
+
+
+def make_case(seed, negpair=False):
     rng = random.Random(seed)
     vname = VENDORS[rng.randrange(len(VENDORS))]
     from annet.vendors import registry_connector
@@ -96,6 +115,12 @@ def make_case(seed):
         t = add_negated(rng, t, prefix, 0.2)
     a = GA.gen_acl(rng, U)
     b = GA.gen_acl(rng, U, p_include=0.5)
+    if negpair:
+        cnt = [0]
+        add_negpairs(rng, a, prefix, cnt)
+        add_negpairs(rng, b, prefix, cnt)
+        t = add_negated(rng, t, prefix, 0.35)
+        neg = True
     return vname, prefix, U, t, a, b, neg
 
 
@@ -119,11 +144,13 @@ def classify(level, pt, prefix, got):
     return None
 
 
-def check_case(seed, acc):
+def check_case(seed, acc, negpair=False):
     from annet.annlib.patching import AclError
-    vname, prefix, U, t, a, b, neg = make_case(seed)
+    vname, prefix, U, t, a, b, neg = make_case(seed, negpair)
     pt = plain(t)
-    w = {"seed": seed, "vendor": vname, "tree": pt}
+    w = {"seed": seed, "negpair": negpair, "vendor": vname, "tree": pt}
+    if negpair:
+        acc.count("explicit_negated_rule_cases")
     acls = {"A": a, "B": b, "A+B": a + b}
     texts = {k: A.render(v) for k, v in acls.items()}
     texts["A+B"] = texts["A"] + "\n" + texts["B"]
@@ -213,7 +240,7 @@ def check_case(seed, acc):
 
 def run_shard(spec, acc):
     if spec["mode"] == "replay":
-        check_case(spec["witness"]["seed"], acc)
+        check_case(spec["witness"]["seed"], acc, negpair=bool(spec["witness"].get("negpair")))
         return
     tier, k, n = spec["tier"], spec["shard"], spec["nshards"]
     total = 2400 if tier == "quick" else 80000
@@ -223,3 +250,5 @@ def run_shard(spec, acc):
         w = check_case(seed, acc)
         if j < 2 and w:
             acc.sample({k2: w[k2] for k2 in ("vendor", "acl_A", "acl_B", "tree")})
+        if j % 5 == 4:
+            check_case(rng.randrange(1 << 48), acc, negpair=True)
